@@ -230,6 +230,12 @@ type Party struct {
 	channels    map[channel.ID]*client.Channel
 	newCh       chan *client.Channel
 	OnUpdate    UpdatePolicy
+	// CancelOnEnable (atomic): the party's OnUpdate notification cancels the context of the
+	// request that led to the update (the update is enabled by then).
+	CancelOnEnable    int32
+	RequestsCancelled int64
+	ctxSeq            int
+	ctxCancels        map[int]context.CancelFunc
 	OnPropose   ProposalPolicy
 	// ProposalsSeen records every invocation of the proposal handler.
 	ProposalsSeen []client.ChannelProposal
@@ -278,6 +284,11 @@ func (w *World) NewParty(name string, funds int64) *Party {
 		p.mu.Lock()
 		p.channels[ch.ID()] = ch
 		p.mu.Unlock()
+		ch.OnUpdate(func(_, _ *channel.State) {
+			if atomic.LoadInt32(&p.CancelOnEnable) == 1 {
+				p.cancelRequests()
+			}
+		})
 		nested := ch.Parent() != nil && ch.Parent().Parent() != nil // the local watcher handles one level of sub-channels
 		if !p.NoWatch && !ch.IsVirtualChannel() && !nested {
 			// until the watcher has accepted the channel the world counts as busy (closing a
@@ -409,7 +420,36 @@ func (p *Party) Ctx() (context.Context, context.CancelFunc) {
 	p.mu.Lock()
 	d := p.Timeout
 	p.mu.Unlock()
-	return context.WithTimeout(context.Background(), d)
+	ctx, cancel := context.WithTimeout(context.Background(), d)
+	p.mu.Lock()
+	p.ctxSeq++
+	k := p.ctxSeq
+	if p.ctxCancels == nil {
+		p.ctxCancels = map[int]context.CancelFunc{}
+	}
+	p.ctxCancels[k] = cancel
+	p.mu.Unlock()
+	return ctx, func() {
+		p.mu.Lock()
+		delete(p.ctxCancels, k)
+		p.mu.Unlock()
+		cancel()
+	}
+}
+
+// cancelRequests cancels the contexts of all calls the party has in flight (a user that gives up
+// its request context from inside the update notification).
+func (p *Party) cancelRequests() {
+	p.mu.Lock()
+	var cs []context.CancelFunc
+	for _, c := range p.ctxCancels {
+		cs = append(cs, c)
+	}
+	p.mu.Unlock()
+	for _, c := range cs {
+		c()
+	}
+	atomic.AddInt64(&p.RequestsCancelled, int64(len(cs)))
 }
 
 // SetTimeout changes the patience of the party's further calls.
